@@ -115,6 +115,16 @@ func copyStructFields(dest any, source any) {
 	}
 }
 
+// a permission without action can be loaded (the field is simply absent) but cannot be written back through the API.
+func checkPermissions(perms []AuthInternalUserPermission) error {
+	for _, perm := range perms {
+		if perm.Action == "" {
+			return fmt.Errorf("invalid auth action: ''")
+		}
+	}
+	return nil
+}
+
 func mustParseCIDR(v string) IPNetwork {
 	_, ne, err := net.ParseCIDR(v)
 	if err != nil {
@@ -705,6 +715,20 @@ func (conf *Conf) Validate(l logger.Writer) error {
 	}
 
 	// Authentication
+
+	for _, u := range conf.AuthInternalUsers {
+		if err := checkPermissions(u.Permissions); err != nil {
+			return err
+		}
+	}
+
+	if err := checkPermissions(conf.AuthHTTPExclude); err != nil {
+		return err
+	}
+
+	if err := checkPermissions(conf.AuthJWTExclude); err != nil {
+		return err
+	}
 
 	switch conf.AuthMethod {
 	case AuthMethodInternal:
